@@ -142,11 +142,60 @@ func verifExpectBlock(mode int) {
 func verifNotNative(what string) { verifExit("VERIF-ERROR: "+what+" has no native counterpart", 3) }
 
 func verifBlockForever()                   { select {} }
-func verifQuiesce()                        { time.Sleep(300 * time.Millisecond) }
+
+// verifQuiesce waits until the other goroutines have stopped making progress: two consecutive snapshots of all
+// goroutine stacks (50 ms apart) are identical, or 5 s have passed. Robust against a loaded machine.
+func verifQuiesce() {
+	time.Sleep(100 * time.Millisecond)
+	snap := func() string {
+		buf := make([]byte, 1<<20)
+		buf = buf[:runtime.Stack(buf, true)]
+		var keep []string
+		for _, g := range strings.Split(string(buf), "\n\n") {
+			if strings.Contains(g, "verifQuiesce") || strings.Contains(g, "runtime.gopark") && strings.Contains(g, "bgsweep") {
+				continue
+			}
+			// drop the "N minutes" wait annotations which change while nothing happens
+			if i := strings.Index(g, "\n"); i > 0 {
+				head := g[:i]
+				if j := strings.Index(head, ","); j > 0 {
+					head = head[:j] + "]:"
+				}
+				g = head + g[i:]
+			}
+			keep = append(keep, g)
+		}
+		return strings.Join(keep, "\n\n")
+	}
+	prev := snap()
+	stable := 0
+	for i := 0; i < 100 && stable < 3; i++ {
+		time.Sleep(50 * time.Millisecond)
+		cur := snap()
+		if cur == prev {
+			stable++
+		} else {
+			stable = 0
+		}
+		prev = cur
+	}
+}
 
 // verifLiveWorkers counts goroutines that are executing code of the package under test, other than the harness's own.
-func verifLiveWorkers() (int, string) {
-	time.Sleep(300 * time.Millisecond)
+func verifLiveWorkers() (n int, where string) {
+	// a worker that is merely slow to exit is not a leak: poll for up to 4 s
+	for i := 0; i < 20; i++ {
+		n, where = verifLiveWorkersOnce()
+		if n == 0 {
+			return
+		}
+		time.Sleep(200 * time.Millisecond)
+	}
+	return
+}
+
+func verifLiveWorkersOnce() (int, string) {
+	time.Sleep(100 * time.Millisecond)
 	buf := make([]byte, 1<<20)
 	buf = buf[:runtime.Stack(buf, true)]
 	n := 0
@@ -155,7 +204,7 @@ func verifLiveWorkers() (int, string) {
 		if !strings.Contains(g, "trzsz-go/trzsz.") {
 			continue
 		}
-		if strings.Contains(g, "verifLiveWorkers") || strings.Contains(g, "testing.tRunner") || strings.Contains(g, "trzsz.verif") {
+		if strings.Contains(g, "verifLiveWorkers") || strings.Contains(g, "verifQuiesce") || strings.Contains(g, "testing.tRunner") || strings.Contains(g, "trzsz.verif") {
 			continue
 		}
 		own := true
